@@ -82,6 +82,15 @@ def scenario(draw) -> Dict[str, Any]:
         main['gap'] = draw(st.one_of(st.sampled_from([0, 1, 1000, 1999, 2000, 2001, 4000, 9999, 10001, 29000, 31000, 60000]),
                                      st.integers(0, 1200000)))
     events.append(main)
+    if main['port'] != 5353 and draw(st.integers(0, 2)) == 0:
+        # a second stub resolver sends the very same bytes (ids are often 0, or collide) from another address or port, less than
+        # or about a second later: it is that resolver's own query, not a link-layer duplicate
+        twin = {k: v for k, v in main.items() if k not in ('main', 'quarter', 'delta', 'gap')}
+        other_client = draw(st.booleans())
+        twin.update({'twin': True, 'gap': draw(st.sampled_from([0, 1, 200, 900, 999, 1001])),
+                     'client': (main['client'] + 1) % 3 if other_client else main['client'],
+                     'port': main['port'] if other_client and draw(st.booleans()) else (40002 if main['port'] != 40002 else 40003)})
+        events.append(twin)
     return {'jitter': {'seed': draw(st.integers(0, 10**6))}, 'socks': socks, 'services': services,
             'settle_ms': draw(st.sampled_from([1100, 2000, 5000])), 'events': events, 'tail_ms': 1600}
 
@@ -94,6 +103,35 @@ def _names_equal_exact(m_q: Dict[str, Any], want: Tuple[str, int, bool]) -> bool
     from vlib import wire
 
     return wire.name_text(m_q['name']) == want[0] and m_q['type'] == want[1] and (m_q['cls'] & 0x7FFF) == 1
+
+
+def check_twin(run: respsim.RespRun, q2: Dict[str, Any], q: Dict[str, Any]) -> None:
+    """the same query bytes from another legacy source: that source gets its own unicast reply"""
+    exp, dont_care, _, _ = q2['exp']
+    mine = [s for s in run.sends if not s['mc'] and s['g'] > q2['g'] and (s['dst'], s['port']) == (q2['src'][0], q2['src'][1])]
+    det = {'questions': q2['questions'], 'first_source': q['src'], 'second_source': q2['src'], 'ms_after_first': round(q2['t_ms'] - q['t_ms'], 3),
+           'replies_to_second': [(round(s['t_ms'] - q2['t_ms'], 3), [a[0] for a in s.get('an', [])]) for s in mine]}
+    if not exp:
+        return
+    if not mine:
+        raise Violation('legacy-port query got no unicast reply (same bytes as a query from another source shortly before)', det,
+                        tag='legacy-twin-no-reply')
+    s = mine[0]
+    if abs(s['t_ms'] - q2['t_ms']) > EPS:
+        raise Violation('unicast reply to the second legacy source was not sent at once', det, tag='legacy-twin-late')
+    if s['sock'] != q2['sock']:
+        raise Violation('unicast reply not sent through the receiving socket', det, tag='uc-socket')
+    if s['msg'] is None or not s['response'] or s['msg']['id'] != q2['id']:
+        raise Violation('unicast reply to the second legacy source is malformed or does not echo the id', det, tag='legacy-twin-id')
+    qd = s['msg']['qd']
+    if len(qd) != len(q2['questions']) or not all(_names_equal_exact(a, b) for a, b in zip(qd, q2['questions'])):
+        raise Violation('legacy unicast reply does not echo the questions', det, tag='legacy-questions')
+    got = {ident for ident, _, _ in s['an']}
+    missing = [i for i in exp if i not in got and i not in dont_care]
+    extra = [i for i in got if i not in exp and i not in dont_care]
+    if missing or extra:
+        raise Violation('legacy unicast reply does not carry exactly the expected answers', dict(det, missing=missing, extra=extra),
+                        tag='legacy-answers')
 
 
 def check_multicast_format(run: respsim.RespRun) -> None:
@@ -157,6 +195,10 @@ def check(case: Dict[str, Any]) -> Dict[str, Any]:
     t_q = q['t_ms']
     after = [s for s in run.sends if s['g'] > q['g'] and s['t_ms'] <= t_q + 1500]
     unicast = [s for s in after if not s['mc']]
+    twins = [x for x in run.queries if x['ev'].get('twin')]
+    if twins:
+        check_twin(run, twins[0], q)
+        unicast = [s for s in unicast if (s['dst'], s['port']) != (twins[0]['src'][0], twins[0]['src'][1])]
     mresp = [s for s in after if s['mc'] and s.get('response')]
     det: Dict[str, Any] = {'questions': q['questions'], 'known': q['known'], 'probe': q['probe'], 'src': q['src'],
                            'sock': q['sock'], 'unicast': [(s['dst'], s['port'], s['sock'], [a[0] for a in s.get('an', [])]) for s in unicast],
@@ -266,6 +308,8 @@ def check(case: Dict[str, Any]) -> Dict[str, Any]:
         classes.append('quarter-grid')
     if exp:
         classes.append('has-expected-answers')
+    if twins:
+        classes.append('same-bytes-from-a-second-legacy-source')
     if any(v is None for v in rec.values()):
         classes.append('ptr-floor-dont-care')
     if f12_excluded:
